@@ -2,6 +2,7 @@ package main
 
 import (
 	"fmt"
+	"go/constant"
 	"go/token"
 	"go/types"
 	"strings"
@@ -85,8 +86,15 @@ func externalDeterministic(fn *ssa.Function) bool {
 	return false
 }
 
+func isRepoFunc(fn *ssa.Function) bool {
+	return strings.HasPrefix(fnPkgPath(fn), repoPrefix)
+}
+
 func (eng *Engine) inlinable(fn *ssa.Function, con *Contract) bool {
 	if fn == nil || len(fn.Blocks) == 0 {
+		return false
+	}
+	if !isRepoFunc(fn) {
 		return false
 	}
 	if con != nil && con.Inline {
@@ -117,14 +125,23 @@ func (eng *Engine) inlinable(fn *ssa.Function, con *Contract) bool {
 }
 
 func (eng *Engine) typeContract(c *ssa.CallCommon) *Contract {
-	if c.IsInvoke() {
-		if n, ok := types.Unalias(c.Value.Type()).(*types.Named); ok && n.Obj().Pkg() != nil {
-			return eng.cs.Types[n.Obj().Pkg().Path()+"::"+n.Obj().Name()+"."+c.Method.Name()]
-		}
+	n, ok := types.Unalias(c.Value.Type()).(*types.Named)
+	if !ok || n.Obj().Pkg() == nil {
 		return nil
 	}
-	if n, ok := types.Unalias(c.Value.Type()).(*types.Named); ok && n.Obj().Pkg() != nil {
-		return eng.cs.Types[n.Obj().Pkg().Path()+"::"+n.Obj().Name()]
+	name := n.Obj().Name()
+	if c.IsInvoke() {
+		name += "." + c.Method.Name()
+	}
+	if tc := eng.cs.Types[n.Obj().Pkg().Path()+"::"+name]; tc != nil {
+		return tc
+	}
+	// contract for a foreign type, written `functype pkgname.Type.Method` in any contract file
+	suffix := "::" + n.Obj().Pkg().Name() + "." + name
+	for _, k := range sortedKeys(eng.cs.Types) {
+		if strings.HasSuffix(k, suffix) {
+			return eng.cs.Types[k]
+		}
 	}
 	return nil
 }
@@ -448,22 +465,20 @@ func (con *Contract) sigOf(eng *Engine) (*types.Signature, bool) {
 	if !con.IsType {
 		return nil, false
 	}
-	name := con.Target
-	method := ""
-	if i := strings.Index(name, "."); i >= 0 {
-		method = name[i+1:]
-		name = name[:i]
-	}
+	parts := strings.Split(con.Target, ".")
+	var scopes []*types.Package
 	for _, p := range eng.pkgs {
-		if p.PkgPath != con.PkgPath {
-			continue
+		if p.PkgPath == con.PkgPath {
+			scopes = append(scopes, p.Types)
 		}
-		obj := p.Types.Scope().Lookup(name)
+	}
+	try := func(pk *types.Package, tname, method string) (*types.Signature, bool) {
+		obj := pk.Scope().Lookup(tname)
 		if obj == nil {
 			return nil, false
 		}
 		if method != "" {
-			o, _, _ := types.LookupFieldOrMethod(obj.Type(), true, p.Types, method)
+			o, _, _ := types.LookupFieldOrMethod(obj.Type(), true, pk, method)
 			if f, ok := o.(*types.Func); ok {
 				return f.Type().(*types.Signature), true
 			}
@@ -471,6 +486,35 @@ func (con *Contract) sigOf(eng *Engine) (*types.Signature, bool) {
 		}
 		s, ok := obj.Type().Underlying().(*types.Signature)
 		return s, ok
+	}
+	switch len(parts) {
+	case 1:
+		for _, pk := range scopes {
+			if s, ok := try(pk, parts[0], ""); ok {
+				return s, true
+			}
+		}
+	case 2:
+		for _, pk := range scopes {
+			if s, ok := try(pk, parts[0], parts[1]); ok {
+				return s, true
+			}
+		}
+		for _, pk := range eng.allPkgs() {
+			if pk.Name() == parts[0] {
+				if s, ok := try(pk, parts[1], ""); ok {
+					return s, true
+				}
+			}
+		}
+	case 3:
+		for _, pk := range eng.allPkgs() {
+			if pk.Name() == parts[0] {
+				if s, ok := try(pk, parts[1], parts[2]); ok {
+					return s, true
+				}
+			}
+		}
 	}
 	return nil, false
 }
@@ -618,12 +662,22 @@ func (fr *Frame) applyModifies(st, pre *State, con *Contract, callee *ssa.Functi
 	vc.preserveLocals(pre, st)
 }
 
-// mayPanic models the panic edge of a call: the callee's on-panic facts hold,
-// then this function's deferred calls run and its ensures-on-panic clauses are
-// checked.
+// wantsPanicEdges: panic edges are modelled for functions that make a claim
+// about panicking exits (ensures-on-panic, nopanic) or that recover.
+func (fr *Frame) wantsPanicEdges() bool {
+	vc := fr.vc
+	if fr.spec || vc.con == nil {
+		return false
+	}
+	return len(vc.con.OnPanic) > 0 || vc.con.NoPanic || vc.fn.Recover != nil
+}
+
+// mayPanic records the panic edge of a call: the state in which the callee
+// panicked (callee's modifies applied, its ensures-on-panic assumed).  The
+// edges of a function are merged and handled once, in finishPanics.
 func (fr *Frame) mayPanic(pre *State, con *Contract, callee *ssa.Function, binds map[string]Val, name string, pos token.Pos) {
 	vc := fr.vc
-	if fr.spec || vc.con == nil || len(vc.con.OnPanic) == 0 || !fr.top {
+	if !fr.wantsPanicEdges() || fr.inDefer > 0 {
 		return
 	}
 	ps := pre.clone()
@@ -639,40 +693,99 @@ func (fr *Frame) mayPanic(pre *State, con *Contract, callee *ssa.Function, binds
 			vc.assumeAt(ps, env.boolExpr(en.Expr))
 		}
 	}
-	saved := len(vc.obls)
+	vc.panicSites = append(vc.panicSites, "call "+name)
+	vc.panicStates = append(vc.panicStates, ps)
+}
+
+// panicIf records a panic edge for a failed run-time check (index, nil, ...).
+func (fr *Frame) panicIf(st *State, cond Term, what string) {
+	vc := fr.vc
+	if !fr.wantsPanicEdges() || cond == "false" {
+		return
+	}
+	ps := st.clone()
+	ps.reach = vc.define("panicedge", "Bool", smtAnd(st.reach, cond))
+	vc.panicSites = append(vc.panicSites, what)
+	vc.panicStates = append(vc.panicStates, ps)
+}
+
+// finishPanics merges the panic edges of the function under verification, runs
+// its deferred calls in panicking mode and either resumes at the recover block
+// (when a deferred call recovered) or checks the ensures-on-panic clauses.
+func (fr *Frame) finishPanics() {
+	vc := fr.vc
+	if !fr.wantsPanicEdges() || len(vc.panicStates) == 0 {
+		return
+	}
+	ps := vc.merge(vc.panicStates)
+	vc.panicStates = nil
+	vc.panicking = true
+	vc.recovered = "false"
 	fr.runDefers(ps, true)
-	_ = saved
-	for _, op := range vc.con.OnPanic {
-		env := &SpecEnv{vc: vc, fn: vc.fn, binds: vc.topBinds(), cur: ps, old: vc.entry}
-		o := vc.oblige(ps, "ensures-on-panic", op.label()+" @panic in "+name, env.boolExpr(op.Expr), pos)
+	vc.panicking = false
+	rec := vc.recovered
+	if fr.fn.Recover != nil && rec != "false" {
+		// control resumes at the recover block with the named results
+		rs := ps.clone()
+		rs.reach = vc.define("recovered", "Bool", smtAnd(ps.reach, rec))
+		for _, instr := range fr.fn.Recover.Instrs {
+			if !fr.step(rs, instr) {
+				break
+			}
+		}
+	}
+	esc := ps.clone()
+	esc.reach = vc.define("panic_escapes", "Bool", smtAnd(ps.reach, smtNot(rec)))
+	if vc.con.NoPanic {
+		o := vc.oblige(esc, "nopanic", "no panic escapes (sites: "+fmt.Sprint(len(vc.panicSites))+")", "false", fr.fn.Pos())
 		if o != nil {
-			o.Note = op.Pos
+			o.Pos = vc.con.Pos
+			o.Note = strings.Join(vc.panicSites, "; ")
+		}
+		return
+	}
+	for _, op := range vc.con.OnPanic {
+		env := &SpecEnv{vc: vc, fn: vc.fn, binds: vc.topBinds(), cur: esc, old: vc.entry}
+		o := vc.oblige(esc, "ensures-on-panic", op.label(), env.boolExpr(op.Expr), fr.fn.Pos())
+		if o != nil {
+			o.Pos = op.Pos
 		}
 	}
 }
 
-// runDefers executes the deferred calls registered so far, newest first.
+// runDefers executes the deferred calls, newest first.  Whether a defer
+// statement was executed on the current path is the state flag DF_k.
 func (fr *Frame) runDefers(st *State, panicking bool) {
 	vc := fr.vc
 	for i := len(fr.defers) - 1; i >= 0; i-- {
 		d := fr.defers[i]
-		// the deferred call runs iff its defer statement was executed on this path
+		if !d.seen {
+			continue
+		}
+		flag := vc.get(st, d.flag)
+		if flag == "false" {
+			continue
+		}
 		branch := st.clone()
-		branch.reach = vc.define("deferrun", "Bool", smtAnd(st.reach, d.guard))
+		branch.reach = vc.define("deferrun", "Bool", smtAnd(st.reach, flag))
 		skip := st.clone()
-		skip.reach = vc.define("deferskip", "Bool", smtAnd(st.reach, smtNot(d.guard)))
+		skip.reach = vc.define("deferskip", "Bool", smtAnd(st.reach, smtNot(flag)))
 		c := &d.instr.Call
 		if b, ok := c.Value.(*ssa.Builtin); ok {
 			fr.builtin(branch, b, c, d.args, nil, d.instr.Pos())
 		} else {
 			fr.deferredCall(branch, d, panicking)
 		}
+		if flag == "true" {
+			*st = *branch
+			continue
+		}
 		m := vc.merge([]*State{branch, skip})
 		*st = *m
 	}
 }
 
-func (fr *Frame) deferredCall(st *State, d deferRec, panicking bool) {
+func (fr *Frame) deferredCall(st *State, d *deferRec, panicking bool) {
 	vc := fr.vc
 	c := &d.instr.Call
 	name := calleeName(c)
@@ -683,20 +796,15 @@ func (fr *Frame) deferredCall(st *State, d deferRec, panicking bool) {
 	if callee != nil {
 		con := vc.eng.conOf[callee]
 		if con != nil && !con.Inline {
-			// a deferred call cannot itself be followed by our panic edge again
-			savedOn := vc.con
-			if panicking {
-				// avoid recursion: panics inside deferred calls during panicking are not modelled
-				tmp := *vc.con
-				tmp.OnPanic = nil
-				vc.con = &tmp
-			}
+			fr.inDefer++
 			fr.contractCall(st, con, callee, d.args, d.fnv.Bind, name, d.instr.Pos())
-			vc.con = savedOn
+			fr.inDefer--
 			return
 		}
-		if vc.eng.inlinable(callee, con) {
+		if vc.eng.inlinable(callee, con) || (callee.Parent() == fr.fn && vc.eng.loopFree(callee)) {
+			fr.inDefer++
 			fr.inlineCall(st, callee, d.args, d.fnv.Bind)
+			fr.inDefer--
 			return
 		}
 	}
@@ -783,6 +891,12 @@ func (fr *Frame) externalFacts(st *State, callee *ssa.Function, args []Val, v ss
 			size := r.Tuple[1].T
 			vc.assume(fmt.Sprintf("(and (<= 0 %s) (<= %s 4) (<= %s %s) (=> (> %s 0) (>= %s 1)))", size, size, size, n, n, size))
 			vc.note("assumed contract utf8.DecodeRune*: 0<=size<=4, size<=len, size>=1 when len>0")
+		}
+	case "fmt.Sprintf", "fmt.Errorf":
+		// a format that starts with literal text yields a non-empty result
+		if c, ok := fr.argConst(v, 0); ok && len(c) > 0 && c[0] != '%' && full == "fmt.Sprintf" {
+			vc.assume("(>= " + vc.slenOf(r.T) + " 1)")
+			vc.note("assumed contract fmt.Sprintf: a format beginning with literal text yields a non-empty string")
 		}
 	case "strings.HasPrefix":
 		if vc.smtStr {
@@ -924,9 +1038,15 @@ func (fr *Frame) builtin(st *State, b *ssa.Builtin, c *ssa.CallCommon, args []Va
 		}
 	case "recover":
 		if v != nil {
-			fr.havocVal(st, v)
+			if vc.panicking {
+				// a panic is in flight: recover returns its (non-nil) value
+				fr.havocVal(st, v)
+				vc.assume("(not (= (i.tag " + fr.vals[v].T + ") 0))")
+				vc.recovered = smtOr(vc.recovered, st.reach)
+			} else {
+				fr.vals[v] = Val{T: "(mk-iface 0 nil)", Ty: v.Type()}
+			}
 		}
-		vc.note("recover() result is unconstrained")
 	default:
 		vc.unsupported("builtin " + b.Name())
 		if v != nil {
@@ -1034,4 +1154,37 @@ func (fr *Frame) copyB(st *State, c *ssa.CallCommon, args []Val, v ssa.Value) {
 		}
 		st.heap[hv] = newH
 	}
+}
+
+func (eng *Engine) loopFree(fn *ssa.Function) bool {
+	if len(fn.Blocks) == 0 {
+		return false
+	}
+	for _, b := range fn.Blocks {
+		for _, s := range b.Succs {
+			if backEdge(b, s) {
+				return false
+			}
+		}
+		for _, in := range b.Instrs {
+			switch in.(type) {
+			case *ssa.Defer, *ssa.Go, *ssa.Select:
+				return false
+			}
+		}
+	}
+	return true
+}
+
+// argConst returns the constant string passed as argument i of call v.
+func (fr *Frame) argConst(v ssa.Value, i int) (string, bool) {
+	call, ok := v.(*ssa.Call)
+	if !ok || i >= len(call.Call.Args) {
+		return "", false
+	}
+	c, ok := call.Call.Args[i].(*ssa.Const)
+	if !ok || c.Value == nil || c.Value.Kind() != constant.String {
+		return "", false
+	}
+	return constant.StringVal(c.Value), true
 }
